@@ -72,11 +72,25 @@ Section Node.
     end.
 End Node.
 
-(* the method as called: argument tick `t` in unit `u` (a datetime is unit us); `zw` is z as a
-   function of ticks of the WORKING unit; the result is a tick of the working unit *)
-Definition get_last_an_time (u : tunit) (zw : Z -> Q) (fuel1 fuel2 : nat) (t : Z) : outcome :=
-  last_an zw (ten_minutes (work_unit u)) fuel1 fuel2 (to_work u t).
-(* the method BEFORE fix e2cf667: no conversion, the loop runs in the argument's own unit *)
+(* fix 2488c71: every returned time goes through
+     `_refine_an_time(t_an): pos, vel = get_position(t_an); return t_an - np.timedelta64(int(round(pos[2] / vel[2] * 1e6)), "us")`
+   (one Newton step on z).  ORACLE `shift t` = int(round(pos[2]/vel[2]*1e6)) as computed in binary64 at
+   working tick t (microseconds to subtract).  datetime64[ms] - timedelta64[us] is datetime64[us],
+   datetime64[ns] - timedelta64[us] is datetime64[ns]: the result unit is the finer of the two. *)
+Definition result_unit (u : tunit) : tunit := match work_unit u with U_ms => U_us | w => w end.
+Definition to_res (u : tunit) (x : Z) : Z := match work_unit u with U_ms => x * 1000 | _ => x end.
+Definition shift_res (u : tunit) (s : Z) : Z := match work_unit u with U_ns => s * 1000 | _ => s end.
+Definition refine (u : tunit) (shift : Z -> Z) (r : Z) : Z := to_res u r - shift_res u (shift r).
+
+(* the method as called: argument tick `t` in unit `u` (a datetime is unit us); `zw`, `shift` are
+   functions of ticks of the WORKING unit; the result is a tick of the RESULT unit; one more
+   get_position call is made by the refinement *)
+Definition get_last_an_time (u : tunit) (zw : Z -> Q) (shift : Z -> Z) (fuel1 fuel2 : nat) (t : Z) : outcome :=
+  match last_an zw (ten_minutes (work_unit u)) fuel1 fuel2 (to_work u t) with
+  | Ret r n => Ret (refine u shift r) (S n)
+  | o => o
+  end.
+(* the method BEFORE fixes e2cf667 / 2488c71: no conversion, the loop runs in the argument's own unit *)
 Definition get_last_an_time_before_fix (u : tunit) (zu : Z -> Q) (fuel1 fuel2 : nat) (t : Z) : outcome :=
   last_an zu (ten_minutes u) fuel1 fuel2 t.
 
@@ -122,6 +136,11 @@ Fixpoint ztab (tbl : list (Z * Q)) (t : Z) : Q :=
   end.
 Definition outcome_flat (o : outcome) : list Z :=
   match o with Ret t n => [0; t; Z.of_nat n] | OutOfFuel => [1] | Unbound => [2] end.
-Definition replay (u : tunit) (tbl : list (Z * Q)) (t : Z) : list Z :=
-  outcome_flat (get_last_an_time u (ztab tbl) 2000 200 t).
+Fixpoint stab (tbl : list (Z * Z)) (t : Z) : Z :=
+  match tbl with
+  | [] => 0
+  | (k, v) :: r => if Z.eqb k t then v else stab r t
+  end.
+Definition replay (u : tunit) (tbl : list (Z * Q)) (sh : list (Z * Z)) (t : Z) : list Z :=
+  outcome_flat (get_last_an_time u (ztab tbl) (stab sh) 2000 200 t).
 Definition trunc_flat (xs : list Q) : list Z := map Qtrunc xs.
